@@ -98,8 +98,12 @@ func main() {
 			fmt.Fprintln(os.Stderr, "replay:", err)
 			os.Exit(2)
 		}
-		cases = []*Case{c}
-	} else {
+		if c != nil {
+			c.Label = "corpus-replay" // replayed cases get the deletion probe too
+			cases = []*Case{c}
+		}
+	}
+	if len(cases) == 0 {
 		cases = append(cases, corpus()...)
 		n := o.Count(400, 12000)
 		for i := 0; i < n; i++ {
@@ -137,6 +141,9 @@ func main() {
 				"asset_refs_carried": obs.NTouched, "resumed_exits": obs.NResumedExits, "inspections": obs.Inspections})
 		}
 		oracle(c, obs, res)
+		if o.Tier != "quick" || strings.HasPrefix(c.Label, "corpus-") {
+			probe(c, obs, res)
+		}
 
 		if cur == nil {
 			cur = &caseFile{f: hx.NewCoqFile(fmt.Sprintf("cases_C20_%03d.v", nfile), header)}
@@ -221,7 +228,7 @@ func readReplay(path string) (*Case, error) {
 	case len(rj.Case) > 0:
 		raw = rj.Case
 	default:
-		return nil, fmt.Errorf("%s holds no case (broken proof or translator only)", path)
+		return nil, nil // a broken proof or translator only: nothing to replay but the whole stream
 	}
 	c := &Case{}
 	if err := json.Unmarshal(raw, c); err != nil {
